@@ -23,9 +23,12 @@ def walk(T, v, node, path, out):
         out.append((path, 'cons'))
         for i, kid in enumerate(node.kids):
             # SET OF is sorted: pair children with the element type only (values are read off the node)
-            walk(T[1], v[1][i] if k == 'seqof' and i < len(v[1]) else (v[1][0] if v[1] else None), kid, path + (i,), out)
+            # SET OF is sorted by the encoder, so which value a child belongs to is unknown: below it only
+            # what can be read off the node itself is rewritten (v = None)
+            walk(T[1], v[1][i] if (v is not None and k == 'seqof' and i < len(v[1])) else None, kid, path + (i,), out)
     elif k in ('seq', 'set'):
         out.append((path, 'cons'))
+        if v is None: return
         comps = [(ft, fv) for (p, ft), fv in zip(T[1], v[1])
                  if fv is not None and not (isinstance(p, tuple) and codec.default_equal(ft, fv, p[1]))]
         if k == 'seq':
@@ -39,6 +42,7 @@ def walk(T, v, node, path, out):
                     if o and kid.tag in o:
                         walk(ft, fv, kid, path + (i,), out); break
     elif k == 'choice':
+        if v is None: return
         walk(T[1][v[1]], v[2], node, path, out)
 
 
